@@ -316,7 +316,21 @@ def run(model, rep, tier):
     ok = 'values, rowptr, colidx, ncols = evaluable.as_csr(' in src(fc.node) and 'return (values, rowptr, colidx)' in src(fc.node)
     rep.ob('R05.4', fc.key, fc.where(), ok, 'function.as_csr unpacks and returns (values, rowptr, colidx)', statement='function-as_csr')
     fo = model.func('function:as_coo')
-    ok = 'values, indices, shape = array.as_evaluable_array.simplified.assparse' in src(fo.node) and 'return (values, *indices)' in src(fo.node)
+    ok = False
+    for a_ in ast.walk(fo.node):
+        if isinstance(a_, ast.Assign) and src(a_.targets[0]).replace('(', '').replace(')', '') == 'values, indices, shape':
+            v_ = a_.value
+            if src(v_) == 'array.as_evaluable_array.simplified.assparse':
+                ok = True
+            elif isinstance(v_, ast.Call) and isinstance(v_.func, ast.Attribute) and src(v_.func.value) == 'evaluable' and len(v_.args) == 1 and src(v_.args[0]) == 'array.as_evaluable_array':
+                # through a helper of evaluable.py that returns <its argument>.simplified.assparse
+                g_ = model.functions.get(f'evaluable:{v_.func.attr}')
+                if g_ is not None and not isinstance(g_.node, ast.Lambda):
+                    from sa.astutil import resolved_return
+                    r_ = resolved_return(g_.node)
+                    ps_ = params(g_.node)[0]
+                    ok = r_ is not None and bool(ps_) and src(r_) == f'{ps_[0]}.simplified.assparse'
+    ok = ok and 'return (values, *indices)' in src(fo.node)
     rep.ob('R05.4', fo.key, fo.where(), ok, 'function.as_coo returns (values, *indices) of the simplified array', statement='function-as_coo')
     ci = model.cls('evaluable:CompressIndices').members['_compile_expression'].func
     ok = "get_attr('compress_indices').call(indices, length)" in src(ci.node)
